@@ -130,6 +130,10 @@ SINKS.update({
     'rst-image-alt-svg': ('restructuredtext', lambda P: f'def f():\n    r\'\'\'Doc.\n\n    .. image:: http://x/i.svg\n       :alt: {P}\n    \'\'\'\n', False),
     'rst-figure-alt-swf': ('restructuredtext', lambda P: f'def f():\n    r\'\'\'Doc.\n\n    .. figure:: http://x/i.swf\n       :alt: {P}\n\n       caption\n    \'\'\'\n', False),
     'google-image-alt-svg': ('google', lambda P: f'def f(a):\n    r\'\'\'Doc.\n\n    Note:\n        .. image:: http://x/i.svg\n           :alt: {P}\n    \'\'\'\n', False),
+    # interpreted text whose 'target' is a URL (the trailing underscore of a hyperlink forgotten): the label is text
+    'rst-interpreted-url-label': ('restructuredtext', lambda P: f'def f():\n    r\'\'\'Doc `{P} <http://x/y>` end.\n    \'\'\'\n', False),
+    'google-interpreted-url-label': ('google', lambda P: f'def f(a):\n    r\'\'\'Doc.\n\n    Args:\n        a: see `{P} <https://x/y>` end.\n    \'\'\'\n', False),
+    'rst-interpreted-mailto-label': ('restructuredtext', lambda P: f'def f():\n    r\'\'\'Doc `{P} <mailto:a@b.c>` end.\n    \'\'\'\n', False),
     'rst-image-uri':    ('restructuredtext', lambda P: f'def f():\n    r\'\'\'Doc.\n\n    .. image:: http://x/{esc_sp(P)}\n    \'\'\'\n', False),
     'rst-image-target': ('restructuredtext', lambda P: f'def f():\n    r\'\'\'Doc.\n\n    .. image:: http://x/i.png\n       :target: http://x/{esc_sp(P)}\n       :width: 10\n    \'\'\'\n', False),
     'rst-class-option': ('restructuredtext', lambda P: f'def f():\n    r\'\'\'Doc.\n\n    .. note::\n       :class: {P}\n       :name: {P}\n\n       text\n    \'\'\'\n', False),
@@ -139,7 +143,7 @@ SINKS.update({
 })
 # the author wrote these values as link targets: what the URL does is theirs (statement), breaking out of the attribute is not
 AUTHOR_URL = {'rst-link-target', 'rst-target-def', 'rst-image-uri', 'rst-image-target', 'google-link-target', 'epy-url-target'}
-VALUE_SINKS = AUTHOR_URL | {'rst-image-alt', 'rst-image-alt-svg', 'rst-figure-alt-swf', 'google-image-alt-svg', 'rst-class-option', 'numpy-image-alt', 'rst-code-language', 'rst-codeblock-language', 'rst-version-argument', 'rst-admonition-title', 'google-code-language', 'math-epy', 'math-rst', 'math-block-rst'}
+VALUE_SINKS = AUTHOR_URL | {'rst-interpreted-url-label', 'google-interpreted-url-label', 'rst-interpreted-mailto-label', 'rst-image-alt', 'rst-image-alt-svg', 'rst-figure-alt-swf', 'google-image-alt-svg', 'rst-class-option', 'numpy-image-alt', 'rst-code-language', 'rst-codeblock-language', 'rst-version-argument', 'rst-admonition-title', 'google-code-language', 'math-epy', 'math-rst', 'math-block-rst'}
 
 # sinks that need their own runner
 SPECIAL = ['file-name', 'project-name', 'project-url', 'project-version', 'html-viewsource-base', 'intersphinx-free']
@@ -278,7 +282,9 @@ def judge(sink: str, P: str, res: Dict[str, Any]) -> None:
             (name + '.py').encode('utf-8')
         except UnicodeEncodeError:
             return
-        run_case({'pk/__init__.py': '"""P."""\n', f'pk/{name}.py': 'def f(): "x"\n'}, 'epytext', [], [P], False, sink, case, res)
+        # (the module's objects are referred to from docstrings, annotations and base lists: every link to them carries the full name in an attribute)
+        body = ('class K:\n    "k"\n    def m(self, k: "K") -> "K":\n        "see L{K} and L{f}"\nclass S(K):\n    "s L{K.m}"\ndef f(k: K = None) -> K:\n    "x L{K}"\n')
+        run_case({'pk/__init__.py': '"""P."""\n', f'pk/{name}.py': body}, 'epytext', [], [P], False, sink, case, res)
     else:
         opt = {'project-name': '--project-name', 'project-url': '--project-url', 'project-version': '--project-version', 'html-viewsource-base': '--html-viewsource-base'}.get(sink)
         if opt is None or '\x00' in P:
